@@ -189,6 +189,10 @@ def extract_grammar(src: Source, lexer_tokens: dict[str, list], rel="language/gr
             continue
         if isinstance(st, ast.Pass):
             continue
+        if isinstance(st, ast.AnnAssign) and isinstance(st.target, ast.Name) and st.target.id not in (
+                "tokens", "precedence", "start", "literals"):
+            attrs[st.target.id] = st.value       # an annotated class attribute that is not part of the grammar definition
+            continue
         raise AnalysisError(f"{c.name}: class-body statement not understood: {norm(st)}")
     if tokens is None:
         raise AnalysisError(f"{c.name} defines no tokens")
